@@ -244,6 +244,19 @@ fn run_c02(line: &Line) -> Outcome {
           }
         }
       }
+      Query::Common(s) => {
+        l.push(ordinals::Sat(*s).common());
+        l.push(ordinals::Epoch::from(ordinals::Sat(*s)).0);
+      }
+      Query::Height(h) => {
+        let hh = ordinals::Height(u32::try_from(*h).unwrap());
+        l.push(hh.subsidy());
+        l.push(hh.starting_sat().n());
+      }
+      Query::SatHeight(s) => match std::panic::catch_unwind(|| ordinals::Sat(*s).height().n()) {
+        Ok(h) => l.push(h),
+        Err(_) => l.push(Z { neg: true, mag: 2 }),
+      },
       Query::Rare(s) => match w.index.rare_sat_satpoint(ordinals::Sat(*s)).expect("rare") {
         None => l.push(0u8),
         Some(sp) => {
